@@ -170,6 +170,11 @@ def scenario_configs(seed, filepath=True):
         if c['kind'] == 'wrap':
             c['periodic'] = [0]
         cfgs.append(c)
+    # many bounds (fine likelihood levels, tiny live set) with resumes while more than ten bounds exist:
+    # per-bound file groups bound_10, bound_11 ... sort before bound_2 by name
+    h = [R('b15'), RES, R('b15'), RES, R('b15'), RES, R('inf', n_eff='small'), RES, R('b5', n_shell=6), RES, P]
+    cfgs.append(dict(kind='two', K=32, n_live=10, n_update=1, n_batch=2, n_points_min=4, seed=3, mseed=0, filepath=filepath,
+                     blob='int', history=history_to_cmds(h, 2)))
     return cfgs
 
 
